@@ -32,6 +32,9 @@ type c03Obs struct {
 	Multi []string `json:"multi"`
 	// best-path change notification computed by Update.GetChanges for the global view
 	ChgBest string `json:"chgbest"` // src of the notified best, "none", or "wd:<src>" for a withdrawal
+	// the same notification in a form TLC can replay: kind "nochange" | "best" | "wd", and the source named
+	ChgKind string `json:"chgkind"`
+	ChgSrc  string `json:"chgsrc"`
 }
 
 func TestVerifC03(t *testing.T) {
@@ -80,7 +83,7 @@ func TestVerifC03(t *testing.T) {
 				t.Fatalf("unknown step %q", st.Ev)
 			}
 			ups := tm.Update(path)
-			obs := c03Obs{List: []string{}, Multi: []string{}, Best: "none", ChgBest: "nochange"}
+			obs := c03Obs{List: []string{}, Multi: []string{}, Best: "none", ChgBest: "nochange", ChgKind: "nochange", ChgSrc: "none"}
 			for _, p := range tm.GetPathList(GLOBAL_RIB_NAME, 0, []bgp_Family{bgpRFv4}) {
 				obs.List = append(obs.List, nameOf(p))
 			}
@@ -94,10 +97,13 @@ func TestVerifC03(t *testing.T) {
 			}
 			if len(ups) == 1 {
 				if best, _, _ := ups[0].GetChanges(GLOBAL_RIB_NAME, 0, false); best != nil {
+					obs.ChgSrc = nameOf(best)
 					if best.IsWithdraw {
 						obs.ChgBest = "wd:" + nameOf(best)
+						obs.ChgKind = "wd"
 					} else {
 						obs.ChgBest = nameOf(best)
+						obs.ChgKind = "best"
 					}
 				}
 			}
